@@ -2,6 +2,8 @@ package main
 
 import (
 	"flag"
+	"runtime/debug"
+	"strings"
 	"fmt"
 	"math/rand"
 	"path/filepath"
@@ -34,7 +36,7 @@ type blockRW interface {
 func safely(f func()) (p string) {
 	defer func() {
 		if r := recover(); r != nil {
-			p = fmt.Sprint(r)
+			p = fmt.Sprint(r) + " @" + siteOf(string(debug.Stack()))
 		}
 	}()
 	f()
@@ -121,4 +123,33 @@ func structsCmd(args []string) error {
 	}
 	fmt.Println(n, len(seen), len(regOrder))
 	return nil
+}
+
+// siteOf names the kind of code that panicked / died, from a goroutine stack dump: the first frame that is
+// neither the Go runtime nor this harness.
+func siteOf(stack string) string {
+	for _, line := range strings.Split(stack, "\n") {
+		if line == "" || line[0] == '\t' || strings.HasPrefix(line, "goroutine ") || strings.Contains(line, ": ") ||
+			!strings.Contains(line, "(") || line[0] == '[' {
+			continue
+		}
+		fn := line
+		if i := strings.LastIndex(fn, "("); i > 0 {
+			fn = fn[:i]
+		}
+		switch {
+		case strings.HasPrefix(fn, "runtime.") || strings.HasPrefix(fn, "runtime/") || strings.HasPrefix(fn, "main.") ||
+			strings.HasPrefix(fn, "panic") || strings.HasPrefix(fn, "reflect.") || strings.HasPrefix(fn, "created by"):
+			continue
+		case strings.Contains(fn, "tars/protocol/codec."):
+			return "codec-runtime"
+		case strings.Contains(fn, "tars/protocol/tup."):
+			return "tup"
+		case strings.HasSuffix(fn, ").ReadFrom") || strings.HasSuffix(fn, ").ReadBlock"):
+			return "generated-decoder"
+		default:
+			return fn
+		}
+	}
+	return "unknown"
 }
